@@ -213,6 +213,14 @@ def _worker_init(repo, hashseed):
     import atexit
 
     atexit.register(cleanup_scratch)
+    # one CPU per worker: baton hand-offs between the threads of one worker then stay on one core
+    try:
+        ident = multiprocessing.current_process()._identity
+        cpus = sorted(os.sched_getaffinity(0))
+        if ident and len(cpus) > 1:
+            os.sched_setaffinity(0, {cpus[(ident[0] - 1) % len(cpus)]})
+    except Exception:
+        pass
 
 
 def _worker_run(args):
